@@ -106,10 +106,18 @@ func (o SignSSHOptions) Modify(cert *ssh.Certificate, _ SignSSHOptions) error {
 func (o SignSSHOptions) ModifyValidity(cert *ssh.Certificate) error {
 	t := now()
 	if !o.ValidAfter.IsZero() {
-		cert.ValidAfter = cast.Uint64(o.ValidAfter.RelativeTime(t).Unix())
+		validAfter, err := cast.SafeUint64(o.ValidAfter.RelativeTime(t).Unix())
+		if err != nil {
+			return errs.BadRequest("ssh certificate validAfter cannot be before the Unix epoch")
+		}
+		cert.ValidAfter = validAfter
 	}
 	if !o.ValidBefore.IsZero() {
-		cert.ValidBefore = cast.Uint64(o.ValidBefore.RelativeTime(t).Unix())
+		validBefore, err := cast.SafeUint64(o.ValidBefore.RelativeTime(t).Unix())
+		if err != nil {
+			return errs.BadRequest("ssh certificate validBefore cannot be before the Unix epoch")
+		}
+		cert.ValidBefore = validBefore
 	}
 	if cert.ValidAfter > 0 && cert.ValidBefore > 0 && cert.ValidAfter > cert.ValidBefore {
 		return errs.BadRequest("ssh certificate validAfter cannot be greater than validBefore")
